@@ -373,7 +373,9 @@ def judge_c09(w, st, pre, post, res, val):
         def payloads(snap):
             acc = collections.Counter()
             for d in set(k.split("/")[1] for k in snap if k.startswith("workspace/") and k.count("/") >= 2):
-                acc[json.dumps(sorted((k, v.hex() if v is not None else None) for k, v in payload(snap, "workspace/%s/" % d).items()))] += 1
+                pl = payload(snap, "workspace/%s/" % d)
+                if pl:      # a directory holding no document / data file has nothing repair() could change
+                    acc[json.dumps(sorted((k, v.hex() if v is not None else None) for k, v in pl.items()))] += 1
             return acc
         if payloads(pre_root) != payloads(post_root):
             out.append(("repair-touched-data", "repair() changed a document or data file"))
